@@ -101,9 +101,18 @@ def expected_from_model(tag, it, vals, mlines, prefix):
             st, log = list(fv), []
             for e in [x for x in l.split(';') if x]:
                 p = int(e[1:])
-                log.append(st[p])
+                log.append(st[p] + (50 if e[0] == 'm' else 0))      # method-call syntax reaches the probe's inherent look-alike
                 st[p] = 0
             out.append('%d:%s|%s' % (vi, ''.join('%d,' % x for x in st), ''.join('%d,' % x for x in log)))
+        return out
+    if tag == 'drop' and prefix == 'R':
+        # the property itself: at release every unskipped field of the live variant is zero, the others keep their value
+        out = []
+        for (vi, fv), l in zip(vals, ls):
+            st = list(fv)
+            for e in [x for x in l.split(';') if x]:
+                st[int(e[1:])] = 0
+            out.append('released:' + ''.join('%d,' % x for x in st))
         return out
     if tag == 'drop':
         zl = mlines.get(prefix + '-zeroize') or mlines.get('G-zeroize')
@@ -119,11 +128,11 @@ def expected_from_model(tag, it, vals, mlines, prefix):
                         return None
                     for z in [x for x in zl[n].split(';') if x]:
                         p = int(z[1:])
-                        log.append(st[p])
+                        log.append(st[p] + (50 if z[0] == 'm' else 0))
                         st[p] = 0
                 else:
                     p = int(e[1:])
-                    log.append(st[p])
+                    log.append(st[p] + (50 if e[0] == 'm' else 0))
                     st[p] = 0
             log += [100 + x for x in st]
             out.append('%d:%s|%s' % (vi, ''.join('%d,' % x for x in fv), ''.join('%d,' % x for x in log)))
@@ -280,13 +289,14 @@ def run(cfg, cases, seed=1, limit=300, only=None, keep_src=None, priority=(), ho
                 ex = expected_from_model(tag, it, vals, mo or {}, prefix)
                 if ex is None:
                     continue
+                if tag == 'drop' and prefix == 'R':
+                    il = ['released:' + ''.join('%d,' % (int(x) - 100) for x in l.split('|')[1].split(',') if x and int(x) >= 100) for l in il]
                 stats['observations'] += len(il)
                 if ex != il:
                     k = next((j for j in range(min(len(ex), len(il))) if ex[j] != il[j]), min(len(ex), len(il)))
                     problems.append(dict(kind='behaviour', against=prefix, what=what, tag=tag, cfg=cfg, case=cid, src=item_txt(pit),
                                          value=vals[k] if k < len(vals) else None, values=vals,
                                          implementation=il[k] if k < len(il) else None, model=ex[k] if k < len(ex) else None))
-                    break
     stats['wall_s'] = round(time.time() - t0, 1)
     stats['_iobs'] = {cid: iobs.get(cid) for cid, it, pit, vals in plan}
     stats['_samples'] = [dict(case=cid, item=item_txt(pit), values=vals[:4]) for cid, it, pit, vals in plan[:2]]
